@@ -20,6 +20,7 @@ MC_MsgA == <<104,105>>
 MC_MsgB == <<>>
 MC_Modes == <<"Disabled", "FirstCheater", "AllCheaters">>
 MC_MaxCheaters == 99
+MC_CoordPkps == {"current"}
 MC_EMIT == TRUE
 
 ====
